@@ -200,6 +200,11 @@ def audit_mdib(mdib, label='mdib'):
 def referential_integrity(mdib):
     """C02.refint: every state refers to an existing descriptor and carries its current DescriptorVersion; at most
     one single state per descriptor; every non-root descriptor has an existing parent"""
+    return [text for _, _, text in referential_integrity_ex(mdib)]
+
+
+def referential_integrity_ex(mdib):
+    """like referential_integrity but returns (kind, handle, text) triples"""
     p = []
     descr = {d.Handle: d for d in mdib.descriptions.objects}
     seen = {}
@@ -208,20 +213,23 @@ def referential_integrity(mdib):
         seen[h] = seen.get(h, 0) + 1
         d = descr.get(h)
         if d is None:
-            p.append(f'state {h}: descriptor does not exist')
+            p.append(('orphan-state', h, f'state {h}: descriptor does not exist'))
         elif st.DescriptorVersion != d.DescriptorVersion:
-            p.append(f'state {h}: DescriptorVersion {st.DescriptorVersion} != descriptor\'s {d.DescriptorVersion}')
+            p.append(('state-descriptor-version', h,
+                      f'state {h}: DescriptorVersion {st.DescriptorVersion} != descriptor\'s {d.DescriptorVersion}'))
     for h, n in seen.items():
         if n > 1:
-            p.append(f'descriptor {h}: {n} single states')
+            p.append(('two-single-states', h, f'descriptor {h}: {n} single states'))
     for st in mdib.context_states.objects:
         d = descr.get(st.DescriptorHandle)
         if d is None:
-            p.append(f'context state {st.Handle}: descriptor {st.DescriptorHandle} does not exist')
+            p.append(('orphan-context-state', st.DescriptorHandle,
+                      f'context state {st.Handle}: descriptor {st.DescriptorHandle} does not exist'))
         elif st.DescriptorVersion != d.DescriptorVersion:
-            p.append(f'context state {st.Handle}: DescriptorVersion {st.DescriptorVersion} != descriptor\'s '
-                     f'{d.DescriptorVersion}')
+            p.append(('context-state-descriptor-version', st.DescriptorHandle,
+                      f'context state {st.Handle}: DescriptorVersion {st.DescriptorVersion} != descriptor\'s '
+                      f'{d.DescriptorVersion}'))
     for d in descr.values():
         if d.parent_handle is not None and d.parent_handle not in descr:
-            p.append(f'descriptor {d.Handle}: parent {d.parent_handle} does not exist')
+            p.append(('orphan-descriptor', d.Handle, f'descriptor {d.Handle}: parent {d.parent_handle} does not exist'))
     return p
